@@ -156,6 +156,7 @@ Proof.
   unfold CHH, handle_start_task. destruct (get_stage s i) as [st|] eqn:Hs; [|constructor].
   destruct (nth_error _ t) as [tk|]; [|constructor].
   destruct (status_eqb _ NOT_STARTED); [ch_list Hs|].
+  destruct (before_incomplete s i); [ch_list Hs|].
   destruct (negb _); [ch_list Hs|]. destruct (t_disabled tk); ch_list Hs.
 Qed.
 Lemma chh_complete_task s id i t x : CHH s (handle_complete_task s id i t x).
